@@ -987,6 +987,8 @@ class OdeSystem(object):
         # returning here keeps dt intact, instead of halving it to a fraction of an ulp for a loop that never runs
         if not np.isinf(D.ar_numpy.to_numpy(tf)) and D.ar_numpy.abs(tf - self.__t[self.counter]) < D.ar_numpy.maximum(D.tol_epsilon(self.__y[self.counter].dtype), 0.5 * D.epsilon(self.__y[self.counter].dtype) * D.ar_numpy.abs(tf)):
             return
+        # the status describes this call from here on, not an earlier one that failed or stopped at a terminal event
+        self.__int_status = 0
         steps = 0
         # the constants may have been changed since the previous call: the end slope cached by the integrator belongs to
         # the right-hand side as it was then
